@@ -552,3 +552,150 @@ pub fn run(ctx: &mut Ctx) {
     write_cases(ctx);
     ctx.sample("op=4 sel=[2,0,0] (wrath ClientDecrypterHalf) long header, reader delivers 4 bytes in fragments then fails with ConnectionReset; afterwards decrypt_large_server_header(fifth byte)".to_string());
 }
+
+// ---------------------------------------------------------------------------------- shared traffic oracles
+/// header sizes with the values around every boundary a header codec could care about (nothing, the opcode
+/// lengths 2 / 4, the header lengths 4 / 6, one byte, the Wrath long-header switch, the type limits)
+pub fn edge_size(rng: &mut Rng, wrath_server: bool) -> u32 {
+    match rng.below(10) {
+        0 | 1 | 2 => *rng.pick(&[0u32, 1, 2, 3, 4, 5, 6, 7, 8]),
+        3 => *rng.pick(&[0xFFu32, 0x100, 0x101, 0x7FFE, 0x7FFF, 0x8000, 0x8001, 0xFFFE, 0xFFFF]),
+        4 if wrath_server => *rng.pick(&[0x10000u32, 0x10001, 0x012345, 0x7FFF00, 0x7FFFFE, 0x7FFFFF]),
+        5 if wrath_server => rng.range(0x8000, 0x7FFFFF) as u32,
+        _ => rng.range(0, 0xFFFF) as u32,
+    }
+}
+/// K2 related to K1 in a structured way (same bytes in another order, same word sums / xors, near-identical, ...)
+pub fn related_key(rng: &mut Rng, k1: &[u8; 40]) -> ([u8; 40], &'static str) {
+    let mut k = *k1;
+    let what = match rng.below(12) {
+        0 => { let (a, b) = (rng.below(5) as usize, rng.below(5) as usize); for n in 0..8 { k.swap(8 * a + n, 8 * b + n); } "two 8-byte words exchanged" }
+        1 => { let (a, b) = (rng.below(10) as usize, rng.below(10) as usize); for n in 0..4 { k.swap(4 * a + n, 4 * b + n); } "two 4-byte words exchanged" }
+        2 => { let (a, b) = (rng.below(40) as usize, rng.below(40) as usize); k.swap(a, b); "two bytes exchanged" }
+        3 => { let r = *rng.pick(&[1usize, 4, 8, 16, 20, 32]); k.rotate_left(r); "bytes rotated" }
+        4 => { k.reverse(); "bytes reversed" }
+        5 => { let (a, d, x) = (rng.below(40) as usize, 8 * (1 + rng.below(4) as usize), rng.byte() | 1); k[a] ^= x; k[(a + d) % 40] ^= x; "the same value xored into two bytes 8n apart" }
+        6 => { let (a, b) = (rng.below(40) as usize, rng.below(40) as usize); if a != b { k[a] = k[a].wrapping_add(1); k[b] = k[b].wrapping_sub(1); } "one byte incremented, another decremented" }
+        7 => { let a = rng.below(40) as usize; k[a] ^= 1 << rng.below(8); "one bit flipped" }
+        8 => { for x in k.iter_mut() { *x = !*x; } "complemented" }
+        9 => { let t: [u8; 40] = rng.arr(); let cut = *rng.pick(&[8usize, 16, 20, 32, 39]); k[cut..].copy_from_slice(&t[cut..]); "same prefix, other tail" }
+        10 => { let t: [u8; 40] = rng.arr(); let cut = *rng.pick(&[1usize, 8, 20, 24, 32]); k[..cut].copy_from_slice(&t[..cut]); "same tail, other prefix" }
+        _ => { let (a, b) = (rng.below(40) as usize, rng.below(40) as usize); k.swap(a, b); k.rotate_left(8); "two bytes exchanged, then rotated by 8" }
+    };
+    (k, what)
+}
+
+#[derive(Clone, Debug, PartialEq)]
+pub enum Item { Hdr(u8, u32, u32), Payload(Vec<u8>) }
+fn items_json(s: &[Item]) -> String {
+    let v: Vec<String> = s.iter().map(|i| match i { Item::Hdr(0, s, o) => format!("{{\"server_header\":[{},{}]}}", s, o), Item::Hdr(_, s, o) => format!("{{\"client_header\":[{},{}]}}", s, o), Item::Payload(p) => format!("{{\"payload\":\"{}\"}}", hex(p)) }).collect();
+    format!("[{}]", v.join(","))
+}
+/// One direction of typed traffic of module `m` (0 vanilla, 1 tbc, 2 wrath), as a program uses the API: headers
+/// with sizes around every boundary and raw payload chunks are sent by the real sender; the wire bytes arrive in
+/// pieces; the receiver keeps a receive buffer and parses what is buffered -- through the Read-based call on the
+/// buffered bytes, retried from the same place when it reports an error because the header is not complete yet,
+/// or through the array call once a whole header is there -- and must recover every item, stay in step with the
+/// sender afterwards, and do so identically as a split half and as a combined object.
+pub fn typed_traffic(ctx: &mut Ctx, m: u8, n: usize) {
+    let mut rng = ctx.rng(&format!("typed_traffic/{}", m));
+    for k in 0..n {
+        let key: [u8; 40] = key_of(&mut rng, k + 2);
+        let dir = if m == 2 { (k % 2) as u8 } else { 2 };                 // wrath: one header kind per direction
+        let nitems = 1 + rng.below(10) as usize;
+        let mut script: Vec<Item> = Vec::new();
+        for _ in 0..nitems {
+            if rng.chance(1, 5) { let l = rng.range(0, 50) as usize; script.push(Item::Payload(rng.bytes(l))); continue; }
+            let kind = if dir == 2 { rng.below(2) as u8 } else { dir };
+            let s = Sel { m, kind, facade: 0 };
+            let (size, opcode) = norm(s, edge_size(&mut rng, m == 2 && kind == 0), if rng.chance(1, 4) { *rng.pick(&[0u32, 1, 0xFF, 0x100, 0xFFFF, 0x10000, 0xFFFF_FFFF]) } else { rng.next() as u32 });
+            script.push(Item::Hdr(kind, size, opcode));
+        }
+        let sel_kind = if dir == 2 { 0 } else { dir };
+        let send_facade = (k % 2) as u8;
+        let sc = script.clone();
+        let sent = catch(move || {
+            let mut e = make_enc(Sel { m, kind: sel_kind, facade: send_facade }, key);
+            let mut wire: Vec<u8> = Vec::new();
+            let mut lens: Vec<usize> = Vec::new();
+            for (i, it) in sc.iter().enumerate() {
+                let before = wire.len();
+                match it {
+                    Item::Hdr(kind, s, o) => if i % 2 == 0 { wire.extend(e.hdr(*kind, *s, *o)); } else { e.write(*kind, &mut wire, *s, *o).unwrap(); },
+                    Item::Payload(p) => { let mut b = p.clone(); e.raw(&mut b); wire.extend(b); }
+                }
+                lens.push(wire.len() - before);
+            }
+            let mut probe = [0x5Au8; 16]; e.raw(&mut probe);
+            (wire, lens, probe)
+        });
+        ctx.oracle_runs += 1;
+        let det0 = |what: &str, extra: String| format!("{{\"what\":\"{}\",\"module\":{},\"key\":\"{}\",\"sender_is_combined_object\":{},\"script\":{}{}}}", what, m, hex(&key), send_facade, items_json(&script), extra);
+        let (wire, lens, probe) = match sent { Some(x) => x, None => { ctx.fail("panic", det0("panic while sending typed traffic", String::new())); continue; } };
+        // the sender's wire lengths are the documented ones
+        let want_lens: Vec<usize> = script.iter().map(|it| match it { Item::Hdr(kind, s, o) => layout(Sel { m, kind: *kind, facade: 0 }, *s, *o).len(), Item::Payload(p) => p.len() }).collect();
+        if lens != want_lens { ctx.fail("typed_traffic_wire_length", det0("a typed send call put another number of bytes on the wire than the header layout has", format!(",\"wire_lengths\":{:?}", lens))); continue; }
+        // arrivals: cumulative number of wire bytes present after each delivery
+        let mut arrivals: Vec<usize> = Vec::new();
+        { let mut pos = 0usize; let style = k % 4;
+          while pos < wire.len() { let step = match style { 0 => wire.len(), 1 => 1, 2 => rng.range(1, 3) as usize, _ => rng.range(1, 9) as usize }; pos = (pos + step).min(wire.len()); arrivals.push(pos); }
+          if arrivals.is_empty() { arrivals.push(0); } }
+        let mut results: Vec<(u8, u8, Vec<Item>, [u8; 16])> = Vec::new();
+        for facade in 0..2u8 {
+            for mode in 0..2u8 {                                                  // 0 Read-based call with retry, 1 array call on complete headers
+                let (sc, wr, arr, ln) = (script.clone(), wire.clone(), arrivals.clone(), lens.clone());
+                let r = catch(move || {
+                    let mut d = make_dec(Sel { m, kind: sel_kind, facade }, key);
+                    let mut got: Vec<Item> = Vec::new();
+                    let (mut pos, mut idx, mut pay_done) = (0usize, 0usize, 0usize);
+                    let mut pay: Vec<u8> = Vec::new();
+                    for avail in arr {
+                        while idx < sc.len() {
+                            match &sc[idx] {
+                                Item::Payload(p) => {
+                                    let take = (p.len() - pay_done).min(avail - pos);
+                                    let mut b = wr[pos..pos + take].to_vec(); d.raw(&mut b); pay.extend(b); pos += take; pay_done += take;
+                                    if pay_done == p.len() { got.push(Item::Payload(std::mem::take(&mut pay))); pay_done = 0; idx += 1; } else { break; }
+                                }
+                                Item::Hdr(kind, _, _) => {
+                                    let complete = avail - pos >= ln[idx];
+                                    // a Wrath server header longer than four bytes is not restartable once its first four bytes are consumed
+                                    let try_early = !(m == 2 && *kind == 0);
+                                    if mode == 1 || !try_early {
+                                        if !complete { break; }
+                                        if mode == 1 { let h = d.hdr(*kind, &wr[pos..pos + ln[idx]]); got.push(Item::Hdr(*kind, u32::from_le_bytes([h[1], h[2], h[3], h[4]]), u32::from_le_bytes([h[5], h[6], h[7], h[8]]))); pos += ln[idx]; idx += 1; continue; }
+                                    }
+                                    let mut rd: &[u8] = &wr[pos..avail];
+                                    let had = rd.len();
+                                    match d.read(*kind, &mut rd) {
+                                        Ok((s, o)) => { got.push(Item::Hdr(*kind, s, o)); pos += had - rd.len(); idx += 1; }
+                                        Err(_) if !complete => break,                      // wait for more bytes, retry from the same place
+                                        Err(_) => { got.push(Item::Hdr(*kind, u32::MAX, u32::MAX)); pos += ln[idx]; idx += 1; }
+                                    }
+                                }
+                            }
+                        }
+                    }
+                    let mut pb = probe; d.raw(&mut pb);
+                    (got, pb)
+                });
+                ctx.oracle_runs += 1;
+                match r { None => { ctx.fail("panic", det0("panic while receiving typed traffic", format!(",\"receiver_is_combined_object\":{},\"receive_call\":\"{}\",\"arrivals\":{:?}", facade, if mode == 0 { "read_and_decrypt_*" } else { "array" }, arrivals))); }
+                          Some((got, pb)) => results.push((facade, mode, got, pb)) }
+            }
+        }
+        for (facade, mode, got, pb) in &results {
+            let extra = format!(",\"receiver_is_combined_object\":{},\"receive_call\":\"{}\",\"arrivals\":{:?}", facade, if *mode == 0 { "read_and_decrypt_* on the buffered bytes, retried while incomplete" } else { "array call on complete headers" }, arrivals);
+            if *got != script {
+                let at = got.iter().zip(script.iter()).position(|(a, b)| a != b).unwrap_or(got.len().min(script.len()));
+                ctx.fail("typed_traffic", det0(&format!("the receiver does not recover item {} of the traffic: got {}", at, got.get(at).map(|g| items_json(std::slice::from_ref(g))).unwrap_or_else(|| "nothing".into()).replace('"', "'")), extra));
+                break;
+            } else if *pb != [0x5Au8; 16] {
+                ctx.fail("typed_traffic_out_of_step", det0("every item was recovered but receiver and sender are out of step afterwards (the next 16 bytes do not decrypt)", extra));
+                break;
+            }
+        }
+        ctx.count(&format!("typed_traffic:m{}:arrival_style{}", m, k % 4));
+        for it in &script { match it { Item::Hdr(_, s, _) => ctx.count(if *s < 8 { "typed_traffic:size<8" } else if *s > 0x7FFF { "typed_traffic:size>0x7FFF" } else { "typed_traffic:size other" }), Item::Payload(_) => ctx.count("typed_traffic:payload") } }
+    }
+}
